@@ -17,6 +17,9 @@ SEQ_FLAVOURS = ["subclass", "readonly_code", "strided_code", "alphabet_prefix"]
 MAT_FLAVOURS = ["int64_array", "fortran_array", "readonly_array", "noncontiguous_view", "dict", "dict_reversed",
                 "transposed_twice", "int16_array"]
 LIB_FLAVOURS = ["nucleotide", "protein"]
+# sequences that the library itself hands out (second audit, dimension E)
+DERIVED_SEQ_FLAVOURS = ["sliced", "strided_slice", "fancy_indexed", "reversed_twice", "copied", "concatenated",
+                        "symbols_reassigned"]
 
 
 class FlavourEnv(I.Env):
@@ -94,6 +97,27 @@ class FlavourEnv(I.Env):
             arr = np.full(3 * len(codes) + 2, 255, dtype=np.uint8)
             arr[1:1 + 3 * len(codes):3] = codes
             s.code = arr[1:1 + 3 * len(codes):3]
+        elif fl == "sliced":
+            pad = codes[-1] if codes else 0
+            s = G(alph, [pad] + codes + [pad, pad])[1:1 + len(codes)]
+        elif fl == "strided_slice":
+            pad = codes[0] if codes else 0
+            big = []
+            for c in codes:
+                big += [c, pad]
+            s = G(alph, big)[::2]
+        elif fl == "fancy_indexed":
+            s = G(alph, codes[::-1])[np.arange(len(codes) - 1, -1, -1)]
+        elif fl == "reversed_twice":
+            s = G(alph, codes).reverse().reverse()
+        elif fl == "copied":
+            s = G(alph, codes).copy()
+        elif fl == "concatenated":
+            h = len(codes) // 2
+            s = G(alph, codes[:h]) + G(alph, codes[h:])
+        elif fl == "symbols_reassigned":
+            s = G(alph, codes[::-1] + codes)     # another length first
+            s.symbols = codes                    # symbols of these alphabets are the codes themselves
         else:
             raise ValueError(fl)
         cache[letters] = s
@@ -173,6 +197,10 @@ def flavour_envs(variant, embed):
         out.append(FlavourEnv(2, 3, "rect", variant, embed, "plain", mf))
     out.append(FlavourEnv(2, 2, "asym", variant, embed, "readonly_code", "readonly_array"))
     return out
+
+
+def derived_envs(variant, embed):
+    return [FlavourEnv(2, 2, "asym", variant, embed, sf, "plain") for sf in DERIVED_SEQ_FLAVOURS]
 
 
 def snapshot(env, l1, l2):
